@@ -19,6 +19,18 @@ def setup(root):
     fu = m
 
 
+def fresh_module():
+    """Re-execute the module under test so that no module-level state (caches, memoised
+    environment reads) leaks from one workload into the next: a run is a function of its case."""
+    import importlib
+    import os as _real_os
+    import fcntl as _real_fcntl
+    fu.os = _real_os
+    fu.fcntl = _real_fcntl
+    fu.__dict__.pop('open', None)
+    importlib.reload(fu)
+
+
 def paths(case):
     dest = case.get('dest_name', 'dest.txt')
     dest_abs = DIR + '/' + dest
@@ -88,9 +100,12 @@ def run_save(case, plan=None, log=None, hooks=None, fs=None, only_warmup=False):
         saver = fu.atomic_save(dest_arg, **kwargs_of(case))
         # instance reuse: the same AtomicSaver object completed earlier saves (not judged, no faults)
         sim.armed = False
+        if case.get('reuse') and case.get('warm_umask') is not None:
+            fs.umask = case['warm_umask']       # the process ran under another umask back then
         for _w in range(case.get('reuse', 0)):
             with saver as f:
                 f.write(WARM_TEXT if case.get('text_mode') else WARM_BYTES)
+        fs.umask = case.get('umask', 0o022)
         sim.armed = True
     except BaseException as e:
         r.exc = e
@@ -183,6 +198,12 @@ def gen_body(rng, text, blksize, allow_raise=False):
     else:
         for _ in range(rng.randint(1, 4)):
             steps.append(['write', chunk(rng.randint(0, 2 * blksize + 1))])
+    if rng.random() < 0.02:
+        # scale: writes far larger than any buffer (they bypass it), followed by a small tail
+        big = rng.choice([8192, 8193, 65536, 70001, 300000])
+        steps.append(['write', ('x' * big) if text else (b'\xab' * big).hex()])
+        if rng.random() < 0.7:
+            steps.append(['write', chunk(rng.randint(1, 5))])
     if allow_raise and rng.random() < 0.25:
         steps.insert(rng.randint(0, len(steps)), ['raise'])
     return steps
@@ -207,7 +228,24 @@ def gen_workload(rng, faults=False):
         case['dest_initial'] = {'data': bytes(rng.randrange(256) for _ in range(rng.randint(0, 12))).hex(),
                                 'mode': rng.choice([0o600, 0o644, 0o664, 0o444])}
     if rng.random() < 0.12:
+        # re-saving a slightly changed file: the old content is a near copy of the new one
+        new = new_content(case)
+        r = rng.random()
+        old = bytearray(new)
+        if r < 0.2 or not old:
+            pass                                         # identical
+        elif r < 0.6:
+            i = rng.randrange(len(old)) if rng.random() < 0.5 else len(old) - 1 - rng.randrange(max(1, len(old) // 10))
+            old[i] ^= 0x01                               # same length, one byte differs (often late)
+        elif r < 0.8:
+            del old[rng.randrange(len(old)):]            # shorter
+        else:
+            old.extend(b'tail')                          # longer
+        case['dest_initial'] = {'data': bytes(old).hex(), 'mode': rng.choice([0o600, 0o644, 0o664])}
+    if rng.random() < 0.12:
         case['reuse'] = rng.choice([1, 1, 2])        # the saver object already completed earlier saves
+        if rng.random() < 0.5:
+            case['warm_umask'] = rng.choice([0, 0o022, 0o077])   # ... under a different process umask
     if rng.random() < 0.1:
         import errno as _e
         case['env'] = {'link': rng.choice([_e.EPERM, _e.EMLINK])}   # a file system without hard links
